@@ -326,6 +326,9 @@ type c07Chain struct {
 	rows [][]string
 	// ops[i]: how condition i's operand is spelled (see c07Ops); nil = every condition its own helper c<i>(x)
 	ops []string
+	// bodies[j]: what the block of branch j contains (see c07Bodies; j = number of conditions: the else
+	// block); nil = every block its marker text B<j> / E (return "B<j>" in the return placements)
+	bodies []string
 }
 
 // condition i is an expression written into the template instead of a call of the counting helper
@@ -346,14 +349,17 @@ func (c c07Chain) text() string {
 	if !c.defaultOps() {
 		s += " ops=" + strings.Join(c.ops, ",")
 	}
+	if !c.defaultBodies() {
+		s += " bodies=" + strings.Join(c.bodies, ",")
+	}
 	return s
 }
 
 func c07ParseChain(s string) (c07Chain, error) {
 	var c c07Chain
 	f := strings.Fields(s)
-	if (len(f) != 5 && len(f) != 6) || f[0] != "chain" {
-		return c, fmt.Errorf("want: chain wrap=W else=0|1 forms=f,.. rows=k,../k,.. [ops=o,..]")
+	if len(f) < 5 || len(f) > 7 || f[0] != "chain" {
+		return c, fmt.Errorf("want: chain wrap=W else=0|1 forms=f,.. rows=k,../k,.. [ops=o,..] [bodies=b,..]")
 	}
 	get := func(i int, key string) (string, error) {
 		if !strings.HasPrefix(f[i], key+"=") {
@@ -410,8 +416,19 @@ func c07ParseChain(s string) (c07Chain, error) {
 	if len(c.rows) != c.wrap.rows {
 		return c, fmt.Errorf("wrap %s needs %d row(s)", c.wrap.name, c.wrap.rows)
 	}
-	if len(f) == 6 {
-		os, err := get(5, "ops")
+	for fi := 5; fi < len(f); fi++ {
+		if strings.HasPrefix(f[fi], "bodies=") && c.bodies == nil {
+			c.bodies = strings.Split(f[fi][len("bodies="):], ",")
+			if err := c.checkBodies(); err != nil {
+				return c, err
+			}
+			c = c.normBodies()
+			continue
+		}
+		if c.ops != nil {
+			return c, fmt.Errorf("unexpected %q", f[fi])
+		}
+		os, err := get(fi, "ops")
 		if err != nil {
 			return c, err
 		}
@@ -434,11 +451,12 @@ func c07ParseChain(s string) (c07Chain, error) {
 
 func (c c07Chain) tmpl() string {
 	var b strings.Builder
-	body := func(m string) string {
+	body := func(j int) string {
+		b := c07Bodies[c.body(j)]
 		if c.wrap.ret {
-			return `{ return "` + m + `" }`
+			return b.ret(c.marker(j))
 		}
-		return "{ %>" + m + "<% }"
+		return b.text(c.marker(j))
 	}
 	for i, fm := range c.forms {
 		operand := c07Ops[c.op(i)].spell(i)
@@ -449,13 +467,13 @@ func (c c07Chain) tmpl() string {
 		}
 		cond := c07Forms[fm].wrap(operand)
 		if i == 0 {
-			b.WriteString("if (" + cond + ") " + body("B0"))
+			b.WriteString("if (" + cond + ") " + body(0))
 		} else {
-			b.WriteString(" else if (" + cond + ") " + body(fmt.Sprintf("B%d", i)))
+			b.WriteString(" else if (" + cond + ") " + body(i))
 		}
 	}
 	if c.hasElse {
-		b.WriteString(" else " + body("E"))
+		b.WriteString(" else " + body(len(c.forms)))
 	}
 	return c.wrap.build(b.String())
 }
@@ -476,6 +494,7 @@ func c07EvalChain(c c07Chain) c07ChainObs {
 	// expectation, from the statement
 	wantCalls := make([]int, n)
 	wantShared := map[string]int{}
+	wantMarks := map[string]int{}
 	outs := make([]string, len(c.rows))
 	for x, row := range c.rows {
 		for _, kn := range row {
@@ -496,11 +515,15 @@ func c07EvalChain(c c07Chain) c07ChainObs {
 				break
 			}
 		}
-		switch {
-		case sel >= 0:
-			outs[x] = fmt.Sprintf("B%d", sel)
-		case c.hasElse:
-			outs[x] = "E"
+		if sel < 0 && c.hasElse {
+			sel = n
+		}
+		if sel >= 0 { // the block of branch sel (n: the else block) is rendered, and no other
+			b := c07Bodies[c.body(sel)]
+			outs[x] = b.out(c.marker(sel))
+			if b.marks {
+				wantMarks[c.marker(sel)]++
+			}
 		}
 	}
 	want := c.wrap.expect(outs)
@@ -528,6 +551,10 @@ func c07EvalChain(c c07Chain) c07ChainObs {
 	if !c.defaultOps() {
 		c07OpsData(c, data, calls, shared)
 	}
+	marks := map[string]int{}
+	if !c.defaultBodies() {
+		c07BodiesData(data, marks)
+	}
 	r.o = safeCall(3*time.Second, func() (string, error) { return plush.Render(r.tmpl, plush.NewContextWith(data)) })
 	if r.o.Kind() == "HANG" {
 		r.symptoms = []string{"hang"} // the counters may still be written to: do not read them
@@ -538,6 +565,9 @@ func c07EvalChain(c c07Chain) c07ChainObs {
 	r.desc = fmt.Sprintf("%s: expected %q with condition calls %v; got %q, err=%v, calls %v", r.tmpl, want, wantCalls, r.o.Out, r.o.Err, got)
 	if !c.defaultOps() {
 		r.desc = fmt.Sprintf("%s: expected %q with condition calls %v and shared-helper calls %s; got %q, err=%v, calls %v and %s", r.tmpl, want, wantCalls, c07SharedText(wantShared), r.o.Out, r.o.Err, got, c07SharedText(shared))
+	}
+	if !c.defaultBodies() {
+		r.desc += fmt.Sprintf("; blocks that call mark(): expected executions %s, got %s", c07MarksText(c, wantMarks), c07MarksText(c, marks))
 	}
 	switch r.o.Kind() {
 	case "PANIC":
@@ -565,6 +595,18 @@ func c07EvalChain(c c07Chain) c07ChainObs {
 	}
 	if earlier {
 		r.symptoms = append(r.symptoms, "condition-not-evaluated")
+	}
+	other, missing := false, false
+	for j := 0; j <= n; j++ {
+		m := c.marker(j)
+		other = other || marks[m] > wantMarks[m]
+		missing = missing || marks[m] < wantMarks[m]
+	}
+	if other {
+		r.symptoms = append(r.symptoms, "other-block-executed")
+	}
+	if missing {
+		r.symptoms = append(r.symptoms, "selected-block-not-executed")
 	}
 	return r
 }
@@ -601,6 +643,13 @@ func c07RunChain(rep *Report, seen map[string]bool, c c07Chain, stream string) {
 	rep.Tag("chain-" + stream)
 	rep.Tag("chain-wrap-" + c.wrap.name)
 	rep.Tag(fmt.Sprintf("chain-n-%d", len(c.forms)))
+	if !c.defaultBodies() {
+		for _, b := range c.bodySig() {
+			rep.Tag("chain-body-" + b)
+		}
+	} else {
+		rep.Tag("chain-bodies-marker-text")
+	}
 	if sig := c.opSig(); len(sig) > 1 {
 		rep.Tag("chain-operands-mixed")
 	} else if len(sig) == 1 {
@@ -613,6 +662,28 @@ func c07RunChain(rep *Report, seen map[string]bool, c c07Chain, stream string) {
 		return
 	}
 	top, _ := c07WrapByName("top")
+	// (-1) contents of the blocks: if the same chain with every block its marker text shows no violation,
+	// the family is about what the blocks contain; else go on with the marker texts
+	if !c.defaultBodies() {
+		c0 := c
+		c0.bodies = nil
+		r0 := c07EvalChain(c0)
+		if len(r0.symptoms) == 0 && !c.wrap.checkOut {
+			// marker texts are not observed in this placement while mark() calls are: the same rows at top level
+			for _, row := range c.rows {
+				t := c07Chain{wrap: top, hasElse: c.hasElse, forms: c.forms, rows: [][]string{row}, ops: c.ops}
+				if rt := c07EvalChain(t); len(rt.symptoms) > 0 {
+					c0, r0 = t, rt
+					break
+				}
+			}
+		}
+		if len(r0.symptoms) == 0 {
+			c07BlameBodies(rep, seen, c, r)
+			return
+		}
+		c, r = c0, r0
+	}
 	// (0) spelling of the operands: if the same rows with every condition its own helper c<i>(x) show no
 	// violation, the family is about how the conditions are spelled; else go on with the plain spelling
 	if !c.defaultOps() {
@@ -830,8 +901,11 @@ func init() {
 			"(spelled alike) the conditions of a chain need not be distinct helpers: 8 other operand spellings - " + c07OpsRule() + " - " +
 			"each, for all conditions of the chain, exhaustively over every truth assignment for 1..4 conditions (thorough 1..5; pairs of assignments 1..3 / 1..4 in the placements that evaluate twice), with and without else, in all 12 placements; " +
 			"and every Go-valued kind at position 0,1,2 of a 3-chain through each spelling (top level and inside for). " +
+			"(blocks) the blocks of a chain need not render their marker text: " + fmt.Sprint(len(c07BodyNames)-1) + " other block contents - " + c07BodiesRule() + " - " +
+			"blocks that render nothing are observed through a recording helper mark(); each content, for all blocks of the chain, exhaustively over every truth assignment for 1..4 conditions (thorough 1..5; pairs of assignments 1..2 / 1..3 in the placements that evaluate twice), with and without else, in every placement that can take it; " +
+			"each content as exactly one block (if / else-if / else) of a 3-chain, every truth assignment; and random chains with random blocks (50% marker text), kinds, forms and spellings. " +
 			"(random) chains of 1..6 conditions of random kinds (returned by the helper or written), the conditions written c, (c), !c, !!c, c && true, c || false, true && c, false || c; 40% of them with random operand spellings (one for all conditions, or one per condition). " +
-			"Checked: exactly the marker of the first truthy condition is rendered (else marker or nothing), each counted condition up to the selected one is called once per evaluation and none after it. " +
+			"Checked: exactly what the block of the first truthy condition renders is rendered (else block or nothing), each counted condition up to the selected one is called once per evaluation and none after it, and of the blocks that call mark() exactly the selected one is executed, once. " +
 			"Every case reaches evalIfExpression / isTruthy; distinct by case text."
 		rep.Notes = []string{
 			"a context variable set to untyped nil is indistinguishable from an unset name in plush and is covered by kind unknown-identifier",
@@ -840,6 +914,7 @@ func init() {
 			"the silent-tag placement checks the counters only (what <% %> renders belongs to C02)",
 			"operand spellings a(x).F / a[x].F are written (a(x).F) as the left operand of && / ||: the parser rejects `a(x).F && true` (callee-chain parsing, not C07's subject)",
 			"spellings that read context data only (rvs[x].F<i>, vals[x][<i>]) carry no counter: the rendered branch only is checked",
+			"block contents: the return placements take return \"\" / return markS() only (what a function without a return yields is not C07's subject); whether an assignment in a block reaches an outer variable is not checked (scoping), only that the block ran",
 		}
 		r := NewRng(cfg.Seed).Fork(7)
 		seen := map[string]bool{} // failures already reported (kind|site|case)
@@ -909,6 +984,12 @@ func init() {
 		}
 		// conditions spelled alike (oracle_c07_ops.go)
 		c07GenSpelled(rep, seen, cfg)
+		if rep.Full() {
+			rep.Exhaustive = false
+			return []*Report{rep}
+		}
+		// what the blocks contain (oracle_c07_bodies.go)
+		c07GenBodies(rep, seen, cfg, written, returnable)
 		if rep.Full() {
 			rep.Exhaustive = false
 			return []*Report{rep}
